@@ -23,7 +23,7 @@ theorem reachable_step {cfg : Cfg} {s s' : State} {w : Nat} {l : Label}
     (hr : Reachable cfg s) (h : step cfg s w = some (l, s')) : Reachable cfg s' :=
   reachable_exec hr (Exec.cons h (Exec.nil s'))
 
-theorem reachable_init (cfg : Cfg) : Reachable cfg init := ⟨[], Exec.nil _⟩
+theorem reachable_init (cfg : Cfg) : Reachable cfg (init cfg) := ⟨[], Exec.nil _⟩
 
 /-- the executable run of a schedule that was consumed completely is an execution. -/
 theorem exec_of_runMicro {cfg : Cfg} : ∀ (sched : List Nat) (s : State),
@@ -62,6 +62,9 @@ theorem next_isSome (cfg : Cfg) (w : Nat) (c : WorkerCfg) (pc : Pc) (entry : Opt
     have := hb g snap rfl
     simp [next, this]
   | linkOp p k => cases k <;> simp only [next] <;> (try split) <;> rfl
+  | sameOp p => simp only [next]; (repeat' split) <;> rfl
+  | removeOp p k => cases k <;> simp only [next] <;> (try split) <;> rfl
+  | syncOp k => cases k <;> simp only [next] <;> (repeat' split) <;> rfl
   | mkdirOp k => cases k <;> simp only [next] <;> (try split) <;> rfl
   | copyOp k => cases k <;> simp only [next] <;> (try split) <;> rfl
   | metaOp => simp only [next]; split <;> rfl
@@ -166,6 +169,15 @@ theorem opErr_enters_errPath (cfg : Cfg) (w : Nat) (c : WorkerCfg) (pc : Pc) (en
     cases k <;> simp only [next] at h
     · split at h <;> cases h; simp [Pc.errPath]
     · cases h
+  case sameOp p => (repeat' split at h) <;> cases h
+  case removeOp p k =>
+    cases k <;> simp only [next] at h
+    · split at h <;> cases h; simp [Pc.errPath]
+    · cases h
+  case syncOp k =>
+    cases k <;> simp only [next] at h
+    · (repeat' split at h) <;> cases h; simp [failPc, hv, hl, Pc.errPath]
+    · cases h
   case mkdirOp k =>
     cases k <;> simp only [next] at h
     · split at h <;> cases h; simp [failPc, hv, hl, Pc.errPath]
@@ -194,18 +206,28 @@ def Pc.errish : Pc → Bool
 theorem clean_next (cfg : Cfg) (w : Nat) (c : WorkerCfg) (pc : Pc) (entry : Option Entry)
     (calls : Nat → Nat) (dst : Nat → Option File) (l : Label) (e : Effect)
     (hc : c.clean = true) (h : next cfg w c pc entry calls dst = some (l, e))
+    (hd : ∀ p k, pc = .removeOp p k → (dst w).isSome = true)
     (hp : pc.errish = false) : e.pc.errish = false := by
   simp only [WorkerCfg.clean, Bool.and_eq_true, Bool.not_eq_true'] at hc
   obtain ⟨⟨⟨h1, h2⟩, h3⟩, h4⟩ := hc
   cases pc <;> simp only [next] at h
-  case start => split at h <;> (try split at h) <;> cases h <;> rfl
-  case sawNone => split at h <;> cases h <;> rfl
+  case start =>
+    (repeat' split at h) <;> cases h <;> simp only <;> (try split) <;> rfl
+  case sawNone => (repeat' split at h) <;> cases h <;> simp only <;> (try split) <;> rfl
   case sawInProgress g => split at h <;> cases h <;> rfl
   case armed g snap => split at h <;> cases h <;> rfl
   case waiting g snap => split at h <;> cases h; rfl
   case linkOp p k =>
     cases k <;> simp only [next, h4] at h
     · cases h; rfl
+    · cases h; rfl
+  case sameOp p => (repeat' split at h) <;> cases h <;> rfl
+  case removeOp p k =>
+    have := hd p k rfl
+    cases k <;> simp only [next, h1] at h
+    · cases hw : dst w with
+      | none => rw [hw] at this; cases this
+      | some f => simp [hw] at h; obtain ⟨_, rfl⟩ := h; rfl
     · cases h; rfl
   case mkdirOp k =>
     cases k <;> simp only [next, h1] at h
@@ -214,6 +236,10 @@ theorem clean_next (cfg : Cfg) (w : Nat) (c : WorkerCfg) (pc : Pc) (entry : Opti
   case copyOp k =>
     cases k <;> simp only [next, h2] at h
     · cases h; rfl
+    · cases h; rfl
+  case syncOp k =>
+    cases k <;> simp only [next, h2] at h
+    · (repeat' split at h) <;> first | (rename_i hf; cases hf) | (cases h; rfl)
     · cases h; rfl
   case metaOp =>
     simp only [h3] at h
@@ -225,8 +251,10 @@ theorem clean_next (cfg : Cfg) (w : Nat) (c : WorkerCfg) (pc : Pc) (entry : Opti
   case failNotify o => simp [Pc.errish] at hp
   case done r => cases h
 
+/-- In a run without failures from a well-formed destination nobody ends on an error path. -/
 theorem clean_step {cfg : Cfg} {s s' : State} {w : Nat} {l : Label}
-    (hc : ∀ v, v < cfg.n → (cfg.worker v).clean = true)
+    (hc : ∀ v, v < cfg.n → (cfg.worker v).clean = true) (hd : InvD cfg s)
+    (hu : ∀ v, v < cfg.n → ∀ p k, s.pc v = .removeOp p k → (cfg.worker v).action = .update)
     (h : step cfg s w = some (l, s')) (hp : ∀ v, (s.pc v).errish = false) :
     ∀ v, (s'.pc v).errish = false := by
   obtain ⟨hw, e, hnext, rfl⟩ := step_eq_some h
@@ -234,16 +262,67 @@ theorem clean_step {cfg : Cfg} {s s' : State} {w : Nat} {l : Label}
   by_cases hvw : v = w
   · subst hvw
     rw [apply_pc_self]
-    exact clean_next _ _ _ _ _ _ _ _ _ (hc v hw) hnext (hp v)
+    refine clean_next _ _ _ _ _ _ _ _ _ (hc v hw) hnext ?_ (hp v)
+    intro p k hpk
+    exact hd.updDst v hw (hu v hw p k hpk) (by rw [hpk]; rfl)
+  · rw [apply_pc_other _ _ _ _ _ hvw]; exact hp v
+
+/-- only workers of an update reach `removeOp`. -/
+def Pc.updateOnly : Pc → Bool
+  | .removeOp _ _ | .sameOp _ | .syncOp _ => true
+  | _ => false
+
+theorem updateOnly_next (cfg : Cfg) (w : Nat) (c : WorkerCfg) (pc : Pc) (entry : Option Entry)
+    (calls : Nat → Nat) (dst : Nat → Option File) (l : Label) (e : Effect)
+    (h : next cfg w c pc entry calls dst = some (l, e))
+    (hp : pc.updateOnly = true → c.action = .update) : e.pc.updateOnly = true → c.action = .update := by
+  cases pc <;> simp only [next, failPc] at h
+  case start =>
+    (repeat' split at h) <;> cases h <;> simp only <;> (try split) <;> simp_all [Pc.updateOnly]
+  case sawNone => (repeat' split at h) <;> cases h <;> simp only <;> (try split) <;> simp_all [Pc.updateOnly]
+  case sawInProgress g => split at h <;> cases h <;> simp [Pc.updateOnly]
+  case armed g snap => split at h <;> cases h <;> simp [Pc.updateOnly]
+  case waiting g snap => split at h <;> cases h; simp [Pc.updateOnly]
+  case linkOp p k => cases k <;> simp only [next] at h <;> (try split at h) <;> cases h <;> simp [Pc.updateOnly]
+  case sameOp p => (repeat' split at h) <;> cases h <;> simp_all [Pc.updateOnly]
+  case removeOp p k =>
+    cases k <;> simp only [next] at h <;> (try split at h) <;> cases h <;> simp_all [Pc.updateOnly]
+  case mkdirOp k =>
+    cases k <;> simp only [next, failPc] at h <;> (repeat' split at h) <;> cases h <;> simp [Pc.updateOnly]
+  case copyOp k =>
+    cases k <;> simp only [next, failPc] at h <;> (repeat' split at h) <;> cases h <;> simp [Pc.updateOnly]
+  case syncOp k =>
+    cases k <;> simp only [next, failPc] at h <;> (repeat' split at h) <;> cases h <;> simp_all [Pc.updateOnly]
+  case metaOp => (repeat' split at h) <;> cases h <;> (try split) <;> simp [Pc.updateOnly]
+  case complete => cases h; simp [Pc.updateOnly]
+  case notifyOk => cases h; simp [Pc.updateOnly]
+  case cleanup o => cases h; simp [Pc.updateOnly]
+  case failNotify o => cases h; simp [Pc.updateOnly]
+  case done r => cases h
+
+theorem updateOnly_step {cfg : Cfg} {s s' : State} {w : Nat} {l : Label}
+    (h : step cfg s w = some (l, s'))
+    (hp : ∀ v, (s.pc v).updateOnly = true → (cfg.worker v).action = .update) :
+    ∀ v, (s'.pc v).updateOnly = true → (cfg.worker v).action = .update := by
+  obtain ⟨hw, e, hnext, rfl⟩ := step_eq_some h
+  intro v
+  by_cases hvw : v = w
+  · subst hvw
+    rw [apply_pc_self]
+    exact updateOnly_next _ _ _ _ _ _ _ _ _ hnext (hp v)
   · rw [apply_pc_other _ _ _ _ _ hvw]; exact hp v
 
 theorem clean_exec {cfg : Cfg} {s s' : State} {sched : List Nat}
     (hc : ∀ v, v < cfg.n → (cfg.worker v).clean = true)
-    (h : Exec cfg s sched s') (hp : ∀ v, (s.pc v).errish = false) :
+    (h : Exec cfg s sched s') (hi : Inv cfg s) (hd : InvD cfg s)
+    (hu : ∀ v, (s.pc v).updateOnly = true → (cfg.worker v).action = .update)
+    (hp : ∀ v, (s.pc v).errish = false) :
     ∀ v, (s'.pc v).errish = false := by
   induction h with
   | nil s => exact hp
-  | cons hstep _ ih => exact ih (clean_step hc hstep hp)
+  | cons hstep _ ih =>
+    exact ih (inv_step hi hstep) (invD_step hi hd hstep) (updateOnly_step hstep hu)
+      (clean_step hc hd (fun v _ p k hpk => hu v (by rw [hpk]; rfl)) hstep hp)
 
 /-! ### the `poll` macro-step -/
 
